@@ -1,13 +1,13 @@
-\* production threshold, thorough: share versions free, three namespaces
+\* production threshold, thorough: share versions free (not tied to the position), compact 0..4
 SPECIFICATION Spec
 CONSTANTS
   T = 64
   MaxBlobs = 3
-  NSS = {2, 4, 6}
+  NSS = {2, 4}
   LENS = {1, 65, 129}
   VERS = {0, 1}
   COMPACTS = {0, 1, 2, 3, 4}
-  QUERYNS = {2, 3, 4, 6, 7}
+  QUERYNS = {2, 3, 4, 5}
   VerTied = FALSE
   EmitCases = TRUE
 INVARIANTS
